@@ -361,13 +361,19 @@ class World:
     def fresh_dt(self, fresh):
         return None if fresh is None else T0 + dt.timedelta(seconds=fresh)
 
-    def run(self, out=None, fresh=None, fault=None, max_errors=0, scheduler=None, W=1, dry_run=False):
+    def run(self, out=None, fresh=None, fault=None, max_errors=0, scheduler=None, W=1, dry_run=False, capture=None):
         self.fault = fault
         outarg, _ = self.output_arg(out)
+        tp = None
+        if capture is not None:
+            def tp(p, o):
+                capture.append((p.copy(), o))
+                return p, o
         try:
             r = self.uberjob.run(
                 self.plan, registry=self.registry, output=outarg, fresh_time=self.fresh_dt(fresh),
                 max_workers=W, max_errors=max_errors, progress=None, scheduler=scheduler, dry_run=dry_run,
+                transform_physical=tp,
             )
             return ("ret", r)
         except BaseException as e:  # noqa
@@ -845,6 +851,42 @@ def replay_history(spec, hist, norm=False, do_dry=False, verbose=False, order="t
     return msgs
 
 
+def _plan_signatures(plan, onode):
+    """Multiset of structural node signatures (label + signatures of predecessors with edge keys); DAG only."""
+    from uberjob.graph import Call
+
+    g = plan.graph
+    memo = {}
+
+    def label(n):
+        if type(n) is Call:
+            return ("call", getattr(n.fn, "__qualname__", repr(n.fn)), tuple(map(repr, n.scope)))
+        return ("lit", repr(getattr(n, "value", None)), tuple(map(repr, n.scope)))
+
+    def sig(n):
+        if n not in memo:
+            memo[n] = None  # cycle guard
+            ins = sorted((type(k).__name__, getattr(k, "index", None), getattr(k, "name", None), sig(u)) for u, _, k in g.in_edges(n, keys=True))
+            memo[n] = hash((label(n), tuple(ins), n is onode))
+        return memo[n]
+
+    out = {}
+    for n in g.nodes():
+        s_ = (sig(n), label(n))
+        out[s_] = out.get(s_, 0) + 1
+    return out
+
+
+def plan_diff(real_plan, real_out, dry_plan, dry_out):
+    a = _plan_signatures(real_plan, real_out)
+    b = _plan_signatures(dry_plan, dry_out)
+    if a == b:
+        return None
+    only_a = [k[1] for k in a if a[k] != b.get(k, 0)]
+    only_b = [k[1] for k in b if b[k] != a.get(k, 0)]
+    return f"nodes (with their dependency structure) only in the real plan: {only_a[:4]}; only in the dry-run plan: {only_b[:4]}"
+
+
 # --------------------------------------------------------------------------
 # C14: dry run twin
 # --------------------------------------------------------------------------
@@ -870,6 +912,14 @@ def check_dry(spec, state, post_real, w_real, r_real, out, fr, norm, order="topo
         return msgs
     if (onode is None) != (out is None):
         msgs.append(("C14", f"dry run output node is {onode!r} for output={out!r}"))
+    # the physical plan the real run executes (captured through transform_physical in a third twin world)
+    wc = World(spec, snap, versions, clock, norm, order)
+    cap = []
+    rc = wc.run(out=out, fresh=fr, capture=cap)
+    if rc[0] == "ret" and cap:
+        d = plan_diff(cap[0][0], cap[0][1], pplan, onode)
+        if d:
+            msgs.append(("C14", "the plan returned by the dry run differs from the physical plan the real run executes: " + d))
     del wb.log[:]
     nodes = list(pplan.graph.nodes())
     try:
